@@ -136,7 +136,15 @@ def writeStep (s : State) (del : Bool) (k v : Bytes) (rot : Bool) : Option State
     if rot then some { s with db := { db1 with mems := db1.mems ++ [[]] }, wal := w1.cut }
     else some { s with db := db1, wal := w1 }
 
-/-- `CheckpointList.Save`: write the document, then delete the WAL files of the checkpoints pending removal -/
+def maxId : List Nat → Nat
+  | [] => 0
+  | i :: is => max i (maxId is)
+
+/-- `RetainOnly`: a checkpoint stays if its id is listed, or if it is newer than every listed id (it belongs to a job
+checkpoint that is still being completed or published) -/
+def keeps (ids : List Nat) (id : Nat) : Bool := ids.contains id || decide (maxId ids < id)
+
+/-- `CheckpointList.Save` (one critical section of the list mutex): write the document, then delete the WAL files of the checkpoints pending removal -/
 def saveList (s : State) : State :=
   { s with
     files := { s.files with
@@ -249,9 +257,9 @@ def step (s : State) : Act → Option State
         let s1 := saveList s
         some { s1 with tasks := s1.tasks.filter (fun t => !(t.id == id)), done := id :: s1.done }
     | .retain ids =>
-      let kept := s.ckpts.filter (fun c => ids.contains c.id)
+      let kept := s.ckpts.filter (fun c => keeps ids c.id)
       if kept.isEmpty then none else
-      some (saveList { s with ckpts := kept, pending := s.pending ++ s.ckpts.filter (fun c => !ids.contains c.id) })
+      some (saveList { s with ckpts := kept, pending := s.pending ++ s.ckpts.filter (fun c => !keeps ids c.id) })
     | .crash => some { s with alive := false }
     | .open _ _ => none
 
